@@ -3,6 +3,7 @@ package protofields
 import (
 	"strings"
 
+	apb "github.com/google/fhir/go/proto/google/fhir/proto/annotations_go_proto"
 	dtpb "github.com/google/fhir/go/proto/google/fhir/proto/r4/core/datatypes_go_proto"
 	bcrpb "github.com/google/fhir/go/proto/google/fhir/proto/r4/core/resources/bundle_and_contained_resource_go_proto"
 	"github.com/iancoleman/strcase"
@@ -123,8 +124,14 @@ func StringValueFromCodeField(message proto.Message) (string, bool) {
 		field := reflect.Descriptor().Fields().ByName(protoreflect.Name("value"))
 		if field.Kind() == protoreflect.EnumKind {
 			enum := reflect.Get(field).Enum()
-			code := string(field.Enum().Values().ByNumber(enum).Name())
-			return strcase.ToKebab(code), true
+			value := field.Enum().Values().ByNumber(enum)
+			// Codes whose spelling does not survive the enum naming rules
+			// ("POST", "<", "1.4.0", "Patient") carry the original code.
+			if orig, ok := proto.GetExtension(value.Options(), apb.E_FhirOriginalCode).(string); ok && orig != "" {
+				return orig, true
+			}
+			code := string(value.Name())
+			return strings.ReplaceAll(strings.ToLower(code), "_", "-"), true
 		}
 		if field.Kind() == protoreflect.StringKind {
 			return reflect.Get(field).String(), true
